@@ -2,7 +2,11 @@ import PyrollModel.Handover
 /-!
 Helper lemmas about the hand-over model `PyrollModel/Handover.lean` (C06): python-dict algebra (`get`/`set`/`pub`),
 the value `evaluate_and_set_hooks` leaves under a name (`evalSet_get`), and the anatomy of a successful `run` /
-`runList` (`run_spec`, `runList_cons`, `runList_step`, `runList_first`).  Core Lean only.
+`runList` (`run_spec`, `runList_cons`, `runList_step`, `runList_first`); for the second solve of a used unit: the value
+`init_solve` leaves under every name of a re-used out profile (`get_handOver_new`, `get_initOut_new`), the anatomy of
+`runM` (`runM_spec`, `runListM_cons`), a first solve is `run` (`runM_fresh`), and a name that is no root hook keeps
+the caller's value through a whole solved tree (`run_keeps`, `runM_keeps`; mutual structural recursion on the unit
+tree).  Core Lean only.
 -/
 namespace Handover
 
@@ -250,4 +254,445 @@ theorem runList_get [DecidableEq K] {hooks : List (String × K)} {priv : K → B
     | succ j => simp at hu hr; exact ih h2 j hu hr
 end Runs
 
+
+/-! ### solving again: `init_solve` on a re-used out profile (`initOut`, `handOver`), `runM` / `runListM` -/
+
+section Reuse
+variable {K V : Type} [DecidableEq K]
+
+theorem get_filter_key (f : K → Bool) (d : Dict K V) (k : K) :
+    get (d.filter fun p => f p.1) k = if f k then get d k else none := by
+  induction d with
+  | nil => simp [get]
+  | cons p r ih =>
+    obtain ⟨k1, v1⟩ := p
+    by_cases hf : f k1 <;> by_cases hk : k1 = k
+    · subst hk; simp [List.filter, hf, get]
+    · simp [List.filter, hf, get, hk, ih]
+    · subst hk; simp [List.filter, hf, ih]
+    · simp [List.filter, hf, get, hk, ih]
+
+theorem get_map_val (g : K → V → V) (d : Dict K V) (k : K) :
+    get (d.map fun p => (p.1, g p.1 p.2)) k = (get d k).map (g k) := by
+  induction d with
+  | nil => simp [get]
+  | cons p r ih =>
+    obtain ⟨k1, v1⟩ := p
+    by_cases hk : k1 = k
+    · subst hk; simp [get]
+    · simp [get, hk, ih]
+
+theorem get_items (d : Dict K V) (k : K) : get (items d) k = get d k := by
+  unfold items
+  rw [get_map_val (fun k' v => (get d k').getD v)]
+  cases h : get d k <;> simp
+
+theorem get_of_mem {d : Dict K V} {p : K × V} (h : p ∈ d) : (get d p.1).isSome := by
+  induction d with
+  | nil => cases h
+  | cons q r ih =>
+    obtain ⟨k1, v1⟩ := q
+    by_cases hk : k1 = p.1
+    · simp [get, hk]
+    · simp only [get, hk, if_false]
+      rcases List.mem_cons.1 h with h1 | h1
+      · subst h1; exact absurd rfl hk
+      · exact ih h1
+
+theorem items_consistent (d : Dict K V) : ∀ p ∈ items d, get d p.1 = some p.2 := by
+  intro p hp
+  simp only [items, List.mem_map] at hp
+  obtain ⟨q, hq, rfl⟩ := hp
+  have := get_of_mem hq
+  cases h : get d q.1 with
+  | none => simp [h] at this
+  | some v => simp
+
+theorem delete_new (h r ha : Bool) : litsAll (atomEnv h r ha true) Reuse.new.delete = (!h && !r && !ha) := by
+  cases h <;> cases r <;> cases ha <;> decide
+
+theorem set_new (h r p : Bool) : litsAny (atomEnv h r true p) Reuse.new.set = (!r || !p) := by
+  cases h <;> cases r <;> cases p <;> decide
+
+theorem get_dropOutdated_new (priv root : K → Bool) (handed out : Dict K V) (k : K) :
+    get (dropOutdated Reuse.new priv root handed out) k
+      = if priv k || root k || (get handed k).isSome then get out k else none := by
+  unfold dropOutdated
+  rw [get_filter_key (fun k' => !litsAll (atomEnv (priv k') (root k') (get handed k').isSome true) Reuse.new.delete)]
+  rw [delete_new]
+  cases priv k <;> cases root k <;> cases (get handed k).isSome <;> simp
+
+theorem get_fill_new (priv root : K → Bool) (h : Dict K V) (k : K) (l out : Dict K V)
+    (hl : ∀ p ∈ l, get h p.1 = some p.2) :
+    get (fill Reuse.new priv root l out) k
+      = if l.any (fun p => decide (p.1 = k)) then
+          (if root k then (match get out k with | some v => some v | none => get h k) else get h k)
+        else get out k := by
+  induction l generalizing out with
+  | nil => simp [fill]
+  | cons p r ih =>
+    obtain ⟨k1, v1⟩ := p
+    have h1 : get h k1 = some v1 := hl (k1, v1) (by simp)
+    have hr : ∀ p ∈ r, get h p.1 = some p.2 := fun p hp => hl p (by simp [hp])
+    simp only [fill]
+    rw [ih _ hr, set_new]
+    by_cases hk : k1 = k
+    · subst hk
+      cases hroot : root k1 <;> cases hout : get out k1 <;> simp [hout, get_set_same, h1]
+      all_goals (split <;> simp_all)
+    · have hne : k1 ≠ k := hk
+      have hd : decide (k1 = k) = false := by simp [hk]
+      simp only [List.any_cons, hd, Bool.false_or]
+      cases hroot : root k1 <;> cases hout : (get out k1).isSome <;>
+        simp [get_set_other _ _ hne]
+
+theorem any_map_key (g : K × V → V) (d : Dict K V) (k : K) :
+    (d.map fun p => (p.1, g p)).any (fun p => decide (p.1 = k)) = (get d k).isSome := by
+  induction d with
+  | nil => simp [get]
+  | cons p r ih =>
+    obtain ⟨k1, v1⟩ := p
+    by_cases hk : k1 = k
+    · simp [get, hk]
+    · simp only [List.map_cons, List.any_cons, get, hk, if_false, decide_false, Bool.false_or]
+      exact ih
+
+theorem any_items (d : Dict K V) (k : K) : (items d).any (fun p => decide (p.1 = k)) = (get d k).isSome :=
+  any_map_key (fun p => (get d p.1).getD p.2) d k
+
+/-- the value the `else:` branch of `init_solve` leaves under every name -/
+theorem get_handOver_new (priv root : K → Bool) (out handed : Dict K V) (k : K) :
+    get (handOver Reuse.new priv root out handed) k
+      = if root k then (match get out k with | some v => some v | none => get handed k)
+        else if priv k then (match get handed k with | some v => some v | none => get out k)
+        else get handed k := by
+  unfold handOver
+  rw [get_fill_new priv root handed k _ _ (items_consistent handed), any_items, get_dropOutdated_new]
+  cases hr : root k <;> cases hp : priv k <;> cases hh : get handed k <;> simp
+  all_goals (cases get out k <;> rfl)
+
+theorem get_initOut_new (priv root : K → Bool) (prev P1 : Dict K V) (k : K) :
+    get (initOut Reuse.new priv root (some prev) P1) k
+      = if priv k then get prev k
+        else if root k then (match get prev k with | some v => some v | none => get P1 k)
+        else get P1 k := by
+  have hn : Reuse.new.handsOver = true := rfl
+  simp only [initOut, hn, if_true]
+  rw [get_handOver_new, get_pub]
+  cases hr : root k <;> cases hp : priv k <;> simp
+  all_goals (cases get prev k <;> rfl)
+
+end Reuse
+
+section RunsM
+variable {K V : Type} [DecidableEq K]
+
+theorem runListM_cons {pol : Reuse} {hooks : List (String × K)} {priv : K → Bool} {u : UnitT K V} {us : List (UnitT K V)}
+    {ms ms' : List (Mem K V)} {P : Dict K V} {rs : List (Solved K V)}
+    (h : runListM pol hooks priv (u :: us) ms P = .ok (rs, ms')) :
+    ∃ r m rs' ms'', rs = r :: rs' ∧ ms' = m :: ms'' ∧ runM pol hooks priv u (ms.headD .fresh) P = .ok (r, m) ∧
+      runListM pol hooks priv us ms.tail r.ret = .ok (rs', ms'') := by
+  rw [runListM] at h
+  split at h
+  · cases h
+  · rename_i r m hr
+    split at h
+    · cases h
+    · rename_i rs' ms'' hrs
+      cases h
+      exact ⟨r, m, rs', ms'', rfl, rfl, hr, hrs⟩
+
+end RunsM
+section Keeps
+variable {K V : Type} [DecidableEq K]
+
+theorem applies_false_of_no_root {hooks : List (String × K)} {k : K} (hn : ∀ h ∈ hooks, h.2 ≠ k) (owners : List String) :
+    applies owners hooks k = false := by
+  simp only [applies, List.any_eq_false, Bool.and_eq_true, decide_eq_true_eq, not_and]
+  intro h hh _
+  exact hn h hh
+
+omit [DecidableEq K] in
+theorem lastRet_cons (P : Dict K V) (r : Solved K V) (rs : List (Solved K V)) : lastRet P (r :: rs) = lastRet r.ret rs := by
+  cases rs with
+  | nil => rfl
+  | cons r1 rs1 =>
+    rw [lastRet_eq r.ret, lastRet_eq P, List.getLast?_cons_cons]
+    cases h : (r1 :: rs1).getLast? with
+    | none => simp at h
+    | some x => rfl
+
+/-- `run_spec` with the trace -/
+theorem run_trace {hooks : List (String × K)} {priv : K → Bool} {io oo : List String} {ii oi idf : Dict K V}
+    {pre post subs : List (UnitT K V)} {P : Dict K V} {r : Solved K V}
+    (h : run hooks priv (.mk io oo ii oi idf pre post subs) P = .ok r) :
+    ∃ rpre rs rpost,
+      runList hooks priv pre P = .ok rpre ∧ r.received = lastRet P rpre ∧
+      evalSet io ii noFallback hooks (pub priv r.received) = .ok r.inP ∧
+      runList hooks priv subs r.inP = .ok rs ∧
+      evalSet oo oi (outFallback rs r.inP idf) hooks (pub priv r.received) = .ok r.outP ∧
+      runList hooks priv post (pub priv r.outP) = .ok rpost ∧ r.ret = lastRet (pub priv r.outP) rpost ∧
+      r.trace = (rpre.flatMap (·.trace)) ++ (r.inP, r.outP) :: (rs.flatMap (·.trace)) ++ (rpost.flatMap (·.trace)) := by
+  rw [run] at h
+  split at h
+  · cases h
+  · rename_i rpre hpre
+    dsimp only at h
+    split at h
+    · cases h
+    · rename_i inP hin
+      split at h
+      · cases h
+      · rename_i rs hrs
+        split at h
+        · cases h
+        · rename_i outP hout
+          split at h
+          · cases h
+          · rename_i rpost hpost
+            cases h
+            exact ⟨rpre, rs, rpost, hpre, rfl, hin, hrs, hout, hpost, rfl, rfl⟩
+
+mutual
+/-- a public name that is no root hook at all keeps its value through a whole solved tree -/
+theorem run_keeps (hooks : List (String × K)) (priv : K → Bool) (k : K) (hk : priv k = false)
+    (hn : ∀ h ∈ hooks, h.2 ≠ k) :
+    ∀ (u : UnitT K V) (P : Dict K V) (r : Solved K V), run hooks priv u P = .ok r →
+      get r.ret k = get P k ∧ ∀ p ∈ r.trace, get p.1 k = get P k ∧ get p.2 k = get P k
+  | .mk io oo ii oi idf pre post subs, P, r, h => by
+    obtain ⟨rpre, rs, rpost, hpre, hrec, hin, hrs, hout, hpost, hret, htr⟩ := run_trace h
+    obtain ⟨a1, a2⟩ := runList_keeps hooks priv k hk hn pre P rpre hpre
+    have hrecv : get r.received k = get P k := by rw [hrec]; exact a1
+    have hinv : get r.inP k = get P k := by
+      rw [evalSet_get _ _ _ _ _ _ hin k, applies_false_of_no_root hn, get_pub, hk]; simpa using hrecv
+    have houtv : get r.outP k = get P k := by
+      rw [evalSet_get _ _ _ _ _ _ hout k, applies_false_of_no_root hn, get_pub, hk]; simpa using hrecv
+    obtain ⟨b1, b2⟩ := runList_keeps hooks priv k hk hn subs r.inP rs hrs
+    obtain ⟨c1, c2⟩ := runList_keeps hooks priv k hk hn post (pub priv r.outP) rpost hpost
+    have hpo : get (pub priv r.outP) k = get P k := by rw [get_pub, hk]; simpa using houtv
+    refine ⟨by rw [hret, c1, hpo], ?_⟩
+    intro p hp
+    rw [htr] at hp
+    simp only [List.mem_append, List.mem_cons, List.mem_flatMap] at hp
+    rcases hp with (⟨q, hq, hpq⟩ | rfl | ⟨q, hq, hpq⟩) | ⟨q, hq, hpq⟩
+    · exact a2 q hq p hpq
+    · exact ⟨hinv, houtv⟩
+    · have := b2 q hq p hpq; rw [hinv] at this; exact this
+    · have := c2 q hq p hpq; rw [hpo] at this; exact this
+theorem runList_keeps (hooks : List (String × K)) (priv : K → Bool) (k : K) (hk : priv k = false)
+    (hn : ∀ h ∈ hooks, h.2 ≠ k) :
+    ∀ (us : List (UnitT K V)) (P : Dict K V) (rs : List (Solved K V)), runList hooks priv us P = .ok rs →
+      get (lastRet P rs) k = get P k ∧ ∀ r ∈ rs, ∀ p ∈ r.trace, get p.1 k = get P k ∧ get p.2 k = get P k
+  | [], P, rs, h => by rw [runList] at h; cases h; exact ⟨rfl, by simp⟩
+  | u :: us, P, rs, h => by
+    obtain ⟨r, rs', rfl, h1, h2⟩ := runList_cons h
+    obtain ⟨a1, a2⟩ := run_keeps hooks priv k hk hn u P r h1
+    obtain ⟨b1, b2⟩ := runList_keeps hooks priv k hk hn us r.ret rs' h2
+    refine ⟨by rw [lastRet_cons, b1, a1], ?_⟩
+    intro q hq p hp
+    rcases List.mem_cons.1 hq with rfl | hq
+    · exact a2 p hp
+    · have := b2 q hq p hp; rw [a1] at this; exact this
+end
+
+end Keeps
+section RunsM2
+variable {K V : Type} [DecidableEq K]
+
+mutual
+/-- a first solve (no history) is `run` -/
+theorem runM_fresh (pol : Reuse) (hooks : List (String × K)) (priv : K → Bool) :
+    ∀ (u : UnitT K V) (P : Dict K V), (runM pol hooks priv u .fresh P).map (·.1) = run hooks priv u P
+  | .mk io oo ii oi idf pre post subs, P => by
+    rw [runM, run]
+    cases hpre : runList hooks priv pre P with
+    | error e => rfl
+    | ok rpre =>
+      dsimp only
+      cases hin : evalSet io ii noFallback hooks (pub priv (lastRet P rpre)) with
+      | error e => rfl
+      | ok inP =>
+        dsimp only
+        have ih := runListM_fresh pol hooks priv subs inP
+        simp only [Mem.fresh, Mem.subs, Mem.out, initOut]
+        cases hs : runListM pol hooks priv subs [] inP with
+        | error e =>
+          rw [hs] at ih
+          simp only [Except.map] at ih
+          rw [← ih]; rfl
+        | ok p =>
+          obtain ⟨rs, ms⟩ := p
+          rw [hs] at ih
+          simp only [Except.map] at ih
+          rw [← ih]
+          dsimp only
+          cases hout : evalSet oo oi (outFallback rs inP idf) hooks (pub priv (lastRet P rpre)) with
+          | error e => rfl
+          | ok outP =>
+            dsimp only
+            cases hpost : runList hooks priv post (pub priv outP) with
+            | error e => rfl
+            | ok rpost => rfl
+theorem runListM_fresh (pol : Reuse) (hooks : List (String × K)) (priv : K → Bool) :
+    ∀ (us : List (UnitT K V)) (P : Dict K V), (runListM pol hooks priv us [] P).map (·.1) = runList hooks priv us P
+  | [], P => by rw [runListM, runList]; rfl
+  | u :: us, P => by
+    rw [runListM, runList]
+    have ih := runM_fresh pol hooks priv u P
+    simp only [List.headD_nil, List.tail_nil]
+    cases h1 : runM pol hooks priv u Mem.fresh P with
+    | error e =>
+      rw [h1] at ih; simp only [Except.map] at ih; rw [← ih]; rfl
+    | ok p =>
+      obtain ⟨r, m⟩ := p
+      rw [h1] at ih; simp only [Except.map] at ih; rw [← ih]
+      dsimp only
+      have ih2 := runListM_fresh pol hooks priv us r.ret
+      cases h2 : runListM pol hooks priv us [] r.ret with
+      | error e => rw [h2] at ih2; simp only [Except.map] at ih2; rw [← ih2]; rfl
+      | ok q =>
+        obtain ⟨rs, ms⟩ := q
+        rw [h2] at ih2; simp only [Except.map] at ih2; rw [← ih2]; rfl
+end
+
+end RunsM2
+
+section KeepsM
+variable {K V : Type} [DecidableEq K]
+
+theorem get_initOut_new_other (priv root : K → Bool) (prev : Option (Dict K V)) (P1 : Dict K V) (k : K)
+    (hk : priv k = false) (hr : root k = false) : get (initOut Reuse.new priv root prev P1) k = get P1 k := by
+  cases prev with
+  | none => simp [initOut, get_pub, hk]
+  | some d => rw [get_initOut_new, hk, hr]; simp
+
+/-- what a successful `runM` consists of -/
+theorem runM_spec {pol : Reuse} {hooks : List (String × K)} {priv : K → Bool} {io oo : List String} {ii oi idf : Dict K V}
+    {pre post subs : List (UnitT K V)} {m m' : Mem K V} {P : Dict K V} {r : Solved K V}
+    (h : runM pol hooks priv (.mk io oo ii oi idf pre post subs) m P = .ok (r, m')) :
+    ∃ rpre rs ms rpost,
+      runList hooks priv pre P = .ok rpre ∧ r.received = lastRet P rpre ∧
+      evalSet io ii noFallback hooks (pub priv r.received) = .ok r.inP ∧
+      runListM pol hooks priv subs m.subs r.inP = .ok (rs, ms) ∧
+      evalSet oo oi (outFallback rs r.inP idf) hooks (initOut pol priv (applies oo hooks) m.out r.received) = .ok r.outP ∧
+      runList hooks priv post (pub priv r.outP) = .ok rpost ∧ r.ret = lastRet (pub priv r.outP) rpost ∧
+      r.trace = (rpre.flatMap (·.trace)) ++ (r.inP, r.outP) :: (rs.flatMap (·.trace)) ++ (rpost.flatMap (·.trace)) ∧
+      m' = .mk (some r.outP) ms := by
+  rw [runM] at h
+  split at h
+  · cases h
+  · rename_i rpre hpre
+    dsimp only at h
+    split at h
+    · cases h
+    · rename_i inP hin
+      split at h
+      · cases h
+      · rename_i rs ms hrs
+        split at h
+        · cases h
+        · rename_i outP hout
+          split at h
+          · cases h
+          · rename_i rpost hpost
+            cases h
+            exact ⟨rpre, rs, ms, rpost, hpre, rfl, hin, hrs, hout, hpost, rfl, rfl, rfl⟩
+
+mutual
+/-- with the hand-over branch, a public name that is no root hook at all has the CURRENT caller's value in every
+    profile of a tree that is solved again, whatever the previous solves left in the out profiles -/
+theorem runM_keeps (hooks : List (String × K)) (priv : K → Bool) (k : K) (hk : priv k = false)
+    (hn : ∀ h ∈ hooks, h.2 ≠ k) :
+    ∀ (u : UnitT K V) (m m' : Mem K V) (P : Dict K V) (r : Solved K V),
+      runM Reuse.new hooks priv u m P = .ok (r, m') →
+      get r.ret k = get P k ∧ ∀ p ∈ r.trace, get p.1 k = get P k ∧ get p.2 k = get P k
+  | .mk io oo ii oi idf pre post subs, m, m', P, r, h => by
+    obtain ⟨rpre, rs, ms, rpost, hpre, hrec, hin, hrs, hout, hpost, hret, htr, -⟩ := runM_spec h
+    obtain ⟨a1, a2⟩ := runList_keeps hooks priv k hk hn pre P rpre hpre
+    have hrecv : get r.received k = get P k := by rw [hrec]; exact a1
+    have hinv : get r.inP k = get P k := by
+      rw [evalSet_get _ _ _ _ _ _ hin k, applies_false_of_no_root hn, get_pub, hk]; simpa using hrecv
+    have houtv : get r.outP k = get P k := by
+      rw [evalSet_get _ _ _ _ _ _ hout k, applies_false_of_no_root hn,
+        get_initOut_new_other _ _ _ _ _ hk (applies_false_of_no_root hn _)]
+      simpa using hrecv
+    obtain ⟨b1, b2⟩ := runListM_keeps hooks priv k hk hn subs m.subs ms r.inP rs hrs
+    obtain ⟨c1, c2⟩ := runList_keeps hooks priv k hk hn post (pub priv r.outP) rpost hpost
+    have hpo : get (pub priv r.outP) k = get P k := by rw [get_pub, hk]; simpa using houtv
+    refine ⟨by rw [hret, c1, hpo], ?_⟩
+    intro p hp
+    rw [htr] at hp
+    simp only [List.mem_append, List.mem_cons, List.mem_flatMap] at hp
+    rcases hp with (⟨q, hq, hpq⟩ | rfl | ⟨q, hq, hpq⟩) | ⟨q, hq, hpq⟩
+    · exact a2 q hq p hpq
+    · exact ⟨hinv, houtv⟩
+    · have := b2 q hq p hpq; rw [hinv] at this; exact this
+    · have := c2 q hq p hpq; rw [hpo] at this; exact this
+theorem runListM_keeps (hooks : List (String × K)) (priv : K → Bool) (k : K) (hk : priv k = false)
+    (hn : ∀ h ∈ hooks, h.2 ≠ k) :
+    ∀ (us : List (UnitT K V)) (ms ms' : List (Mem K V)) (P : Dict K V) (rs : List (Solved K V)),
+      runListM Reuse.new hooks priv us ms P = .ok (rs, ms') →
+      get (lastRet P rs) k = get P k ∧ ∀ r ∈ rs, ∀ p ∈ r.trace, get p.1 k = get P k ∧ get p.2 k = get P k
+  | [], ms, ms', P, rs, h => by rw [runListM] at h; cases h; exact ⟨rfl, by simp⟩
+  | u :: us, ms, ms', P, rs, h => by
+    obtain ⟨r, m, rs', ms'', rfl, rfl, h1, h2⟩ := runListM_cons h
+    obtain ⟨a1, a2⟩ := runM_keeps hooks priv k hk hn u _ m P r h1
+    obtain ⟨b1, b2⟩ := runListM_keeps hooks priv k hk hn us _ ms'' r.ret rs' h2
+    refine ⟨by rw [lastRet_cons, b1, a1], ?_⟩
+    intro q hq p hp
+    rcases List.mem_cons.1 hq with rfl | hq
+    · exact a2 p hp
+    · have := b2 q hq p hp; rw [a1] at this; exact this
+end
+
+end KeepsM
+section StepM
+variable {K V : Type} [DecidableEq K]
+
+omit [DecidableEq K] in
+theorem headD_eq_getElem? (ms : List (Mem K V)) : ms.headD .fresh = (ms[0]?).getD .fresh := by
+  cases ms <;> rfl
+
+/-- on a second solve too, every unit of a chain is solved on exactly what its predecessor returned — with its own history -/
+theorem runListM_step {pol : Reuse} {hooks : List (String × K)} {priv : K → Bool} {us : List (UnitT K V)}
+    {ms ms' : List (Mem K V)} {P : Dict K V} {rs : List (Solved K V)}
+    (h : runListM pol hooks priv us ms P = .ok (rs, ms'))
+    (i : Nat) {u' : UnitT K V} {r r' : Solved K V}
+    (hu : us[i + 1]? = some u') (hr : rs[i]? = some r) (hr' : rs[i + 1]? = some r') :
+    ∃ m', runM pol hooks priv u' ((ms[i + 1]?).getD .fresh) r.ret = .ok (r', m') ∧ ms'[i + 1]? = some m' := by
+  induction us generalizing ms ms' P rs i with
+  | nil => simp at hu
+  | cons u us ih =>
+    obtain ⟨r0, m0, rs', ms'', rfl, rfl, h1, h2⟩ := runListM_cons h
+    cases i with
+    | zero =>
+      simp at hr; subst hr
+      cases us with
+      | nil => simp at hu
+      | cons u1 us1 =>
+        obtain ⟨r1, m1, rs1, ms1, rfl, rfl, h3, _⟩ := runListM_cons h2
+        simp at hu hr'; subst hu; subst hr'
+        refine ⟨m1, ?_, by simp⟩
+        rw [headD_eq_getElem?] at h3
+        simpa using h3
+    | succ j =>
+      simp at hu hr hr'
+      obtain ⟨m', hm, hm'⟩ := ih h2 j hu hr hr'
+      refine ⟨m', ?_, by simpa using hm'⟩
+      simpa using hm
+
+theorem runListM_first {pol : Reuse} {hooks : List (String × K)} {priv : K → Bool} {us : List (UnitT K V)}
+    {ms ms' : List (Mem K V)} {P : Dict K V} {rs : List (Solved K V)}
+    (h : runListM pol hooks priv us ms P = .ok (rs, ms'))
+    {u : UnitT K V} {r : Solved K V} (hu : us[0]? = some u) (hr : rs[0]? = some r) :
+    ∃ m', runM pol hooks priv u ((ms[0]?).getD .fresh) P = .ok (r, m') := by
+  cases us with
+  | nil => simp at hu
+  | cons u0 us =>
+    obtain ⟨r0, m0, rs', ms'', rfl, rfl, h1, _⟩ := runListM_cons h
+    simp at hu hr; subst hu; subst hr
+    rw [headD_eq_getElem?] at h1
+    exact ⟨m0, h1⟩
+
+end StepM
 end Handover
